@@ -81,7 +81,7 @@ func (g *progGen) atom() string {
 		if g.o.ticks && g.chance(2, "tickatom") {
 			return "tick()"
 		}
-		return pick(g.t, "call", []string{`greet("x")`, "obj.Greeting()", "obj.Greeting", "twice(n)", "obj.Hello(name)", `sum(1, 2, 3)`, "valfn(name)"})
+		return pick(g.t, "call", []string{`greet("x")`, "obj.Greeting()", "obj.Greeting", "twice(n)", "obj.Hello(name)", `sum(1, 2, 3)`, "valfn(name)", `ctxjoin(name, "x", 3)`})
 	case 4:
 		if g.o.errProne && g.chance(3, "bad") {
 			return pick(g.t, "badcall", []string{"n / zero", "greet()", "obj.Nope.x", "fails(0)", "n.x", `greet(1)`, "name.0.0.0", "fails(1)"})
